@@ -80,11 +80,32 @@ def s_save(ctx):
     ctx.assume(z3.Length(base) > 0)
     model_path = SStr(path)
 
+    fs_effects = []
+    FS_WRITERS = ("mkdir", "touch", "write_text", "write_bytes", "open", "unlink", "rename", "replace", "rmdir", "symlink_to", "chmod")
+
+    def path_lazy(what):
+        def lazy(interp, obj, attr):
+            if attr in FS_WRITERS:
+                def effect(*a, **k):
+                    raise AssertionError
+
+                def m_effect(interp2, *a, **k):
+                    fs_effects.append((what, attr))
+                    j = z3.Int("j!fs")
+                    ctx.check("C20.save.guard_dominates_every_file_system_effect",
+                              z3.ForAll([j], z3.Implies(z3.And(j >= 0, j < n), z3.Not(Uninit(j)))),
+                              CL1 + f" — {what}.{attr}() creates or changes a file-system entry")
+                    return Opaque(f"{what}.{attr}()")
+                interp.models[effect] = m_effect
+                return effect
+            raise Undecided(f"unmodelled access {what}.{attr} (frame cannot be established)")
+        return lazy
+
     def m_path(interp, p):
-        o = SObj(pathlib.PurePosixPath, "path", lazy=_forbid("Path"))
+        o = SObj(pathlib.PurePosixPath, "path", lazy=path_lazy("Path"))
         ok = isinstance(p, SStr) and p is model_path
         o.fields["name"] = SStr(base) if ok else Opaque("name")
-        parent = SObj(pathlib.PurePosixPath, "parent_dir", lazy=_forbid("Path.parent"))
+        parent = SObj(pathlib.PurePosixPath, "parent_dir", lazy=path_lazy("Path.parent"))
         parent.fields["name"] = Opaque("dirname")
         o.fields["parent"] = parent
         return o
@@ -157,10 +178,22 @@ def s_save(ctx):
     touched = [nm for nm, a in mutated if any(any(x is o for o in owned) for x in a)]
     ctx.check("C20.save.no_mutating_external_data_helper_is_applied_to_the_model", not touched,
               CL2 + " — set_base_dir / load_to_model / unload_from_model / convert_tensors_* rewrite the model they are given")
+    # frame: a callee whose effect is not modelled may write anything reachable from its arguments
+    def reaches_model(v, depth=0):
+        if any(v is o for o in owned):
+            return True
+        if depth < 3 and isinstance(v, (list, tuple)):
+            return any(reaches_model(x, depth + 1) for x in v)
+        if depth < 3 and isinstance(v, dict):
+            return any(reaches_model(x, depth + 1) for x in v.values())
+        return False
+    handed = [nm for nm, a, k in I.unmodelled_calls if reaches_model(a) or reaches_model(k)]
+    ctx.check("C20.save.model_is_handed_only_to_callees_known_to_leave_it_unchanged", not handed,
+              CL2 + " — besides ir.save (whose contract is assumed) nothing may receive the model or its tensors: passes and helpers work in place")
     if raised is not None:
         ctx.cover("save.refused")
         ctx.check("C20.save.refusal_is_ValueError_and_made_no_file_system_effect",
-                  isinstance(raised, ValueError) and len(saves) == 0, CL1)
+                  isinstance(raised, ValueError) and len(saves) == 0 and not fs_effects, CL1)
         j = z3.Int("j!r")
         ctx.check("C20.save.refuses_only_models_with_an_uninitialized_initializer",
                   z3.Exists([j], z3.And(j >= 0, j < n, Uninit(j))), CL1)
@@ -235,6 +268,11 @@ def s_save_bounded(ctx):
         ctx.check("C20.save.bounded.uninitialized_refused_before_saving", False, CL1)
     if fail and saves:
         ctx.check("C20.save.bounded.io_error_propagates", isinstance(raised, OSError), CL2)
+    if not any(v.fields["const_value"] is None for v in vals):
+        # whatever the tensors are backed by (memory, or a data file of an earlier save somewhere else): one save of the given
+        # model with the sibling data file - the loaded copy must find its data next to the model file
+        ok = len(saves) == 1 and saves[0][0] is model and saves[0][1] == "dir/m.onnx" and saves[0][2].get("external_data") == "m.onnx.data"
+        ctx.check("C20.save.bounded.every_initialized_model_is_saved_once_with_the_sibling_data_file", ok, CL3)
 
 
 SCENARIOS = [
